@@ -199,13 +199,17 @@ func gen(c *core.Ctx) error {
 				try(mk("none", full()))
 				for j := 0; j < n; j++ {
 					// header bits
-					for bit := 0; bit < 40; bit++ {
+					hstep := 1
+					if c.Quick() && j > 1 && j < n-1 {
+						hstep = 5
+					}
+					for bit := 0; bit < 40; bit += hstep {
 						e := full()
 						e[j] = ss.EditItem{Kind: "flip", J: base + j, Pos: bit}
 						try(mk(fmt.Sprintf("flip header bit %d of frame %d", bit, j), e))
 					}
 					// body bits: IV / ciphertext / tag region, stride
-					stride := 31
+					stride := 61
 					if !c.Quick() {
 						stride = 1
 					}
